@@ -36,8 +36,11 @@ class C05(Check):
     id = 'C05'
     module = 'Xrl.Props.C05'
     namespace = 'Xrl.C05'
+    extra_modules = [('Xrl.Props.C05b', 'Xrl.C05'), ('Xrl.Props.C05c', 'Xrl.C05')]
     functions = sorted(set(list(ID_ZE) + list(ID_ZET) + list(ID_ZETP) + list(ID_ZXE) + ['CS_Photo', 'CS_Rayl', 'CS_Compt', 'DCS_Rayl', 'DCS_Compt', 'DCSP_Rayl', 'DCSP_Compt']))
-    assumptions = ['theorems assume vecOkB of the three cross-section tables (executed on the dumped tables by C02\'s check)']
+    assumptions = ['theorems assume vecOkB of the cross-section / form-factor / scattering-function tables (executed on the dumped tables by C02\'s check)',
+                   'the differential and Kissel-total theorems carry hW: wherever a form-factor, scattering-function or Kissel table exists the element has an atomic weight '
+                   '(six functions divide by AtomicWeight without testing it; latent: Spec.weightFailures is executed on the tables of every run and must be empty; the full statements are refuted on a synthetic table by *_full_fails)']
 
     def energies(self, ctx, Z):
         r = ctx.rng
@@ -147,11 +150,31 @@ class C05(Check):
             nontriv += 1
             if got is None or not core.close(got, exp, 1e-12):
                 viol.append(dict(key=dl[t], got=dans[t], expected='value %r = N_A/A x kernel %r x factor %r (q = %r)' % (exp, kv, fv, q), what='differential identity violated'))
+        # ---- the executable specifications of Props/C05*.lean (Spec.CS_Total, Spec.DCS_Rayl, …) against the real library
+        SPEC_FNS = {'CS_Total', 'CSb_Total', 'CSb_Photo', 'CSb_Rayl', 'CSb_Compt', 'DCS_Rayl', 'DCS_Compt', 'DCSb_Rayl', 'DCSb_Compt',
+                    'DCSP_Rayl', 'DCSP_Compt', 'DCSPb_Rayl', 'DCSPb_Compt'}
+        sl = [l for l in (lines + dl) if l.split(' ')[0] in SPEC_FNS]
+        sl = sorted(set(sl))
+        ns = 0
+        try:
+            eo = ctx.run_model(['spec.' + l[:-2] for l in sl] + ['spec.weightFailures'])
+            wf = [x for x in eo[-1][len('shape ['):-1].split(', ') if x]
+            for b in wf[:5]:
+                viol.append(dict(key='weightFailures:' + b, got='no atomic weight', expected='an atomic weight wherever a form-factor / scattering-function / Kissel table exists',
+                                 what='data invariant hW assumed by the differential and Kissel-total theorems fails on the tables built from the working tree'))
+            co = ctx.run_c(sl)
+            for l, c_, e_ in zip(sl, co, eo):
+                ns += 1
+                if not core.expect_agrees(c_, e_, rel=1e-13, stats=stats):
+                    viol.append(dict(key=l, got=c_, expected=e_, what='library vs executable specification of the identity'))
+        except core.BuildError:
+            pass
+        stats['spec_cases'] = ns
         stats.update(rule='every aggregate/unit-variant entry point x Z in [-1,122] x structured energies (range ends, edges, seeded log-uniform) x angle grid; expected value computed '
                           'from the PUBLIC component functions of the real library (for the four differential cross sections: kernel x form/scattering factor at q = MomentTransf(E,theta) x N_A/A); '
                           'non-trivial = cases where all parts are defined',
                      distinct_nontrivial=nontriv, differential_identities=dn,
                      samples=[dict(call=lines[plan[i][1]], impl=ans[plan[i][1]], parts=[ans[j] for j in plan[i][2]]) for i in (0, len(plan) // 2, len(plan) - 1)])
-        return len(plan) + len(dplan), viol, stats
+        return len(plan) + len(dplan) + ns, viol, stats
 
 CHECK = C05()
